@@ -718,6 +718,32 @@ func (e *Engine) discharge(obls []*Obligation) {
 		}
 		wg2.Wait()
 	}
+	// Path-sensitive execution (nomerge, unroll) makes several copies of one return statement; a copy
+	// beyond what the data allows (the fifth round of a loop over at most four elements) is rightly
+	// unreachable. The vacuity guard is per statement: it fails only if every copy is unreachable.
+	type retKey struct{ fn, text string }
+	groups := map[retKey][]*Obligation{}
+	for _, o := range obls {
+		if o.Cover && o.Kind == "cover-return" {
+			k := retKey{o.Func, o.Text}
+			groups[k] = append(groups[k], o)
+		}
+	}
+	for _, g := range groups {
+		live := false
+		for _, o := range g {
+			if o.Res.Verdict != "unsat" {
+				live = true
+			}
+		}
+		if live && len(g) > 1 {
+			for _, o := range g {
+				if o.Res.Verdict == "unsat" {
+					o.Res.Verdict = "unreachable-copy"
+				}
+			}
+		}
+	}
 	if os.Getenv("GOVC_TIMING") != "" {
 		fmt.Fprintf(os.Stderr, "timing: %d obligations, query generation %.2fs, wall %.2fs\n", len(obls), genTime.Seconds(), time.Since(t0).Seconds())
 	}
